@@ -25,7 +25,7 @@ if not dest:
     m = re.search(r"cp out/%s/demo\.rs (\S+)" % var, cmds)
     dest = m.group(1).rstrip(".,;)") if m else f"tests/seeded_demo_{var}.rs"
 name = os.path.basename(dest)[:-3]
-pkg = "-p signal-hook-registry" if dest.startswith("signal-hook-registry") else ""
+pkg = "-p signal-hook-registry" if dest.startswith("signal-hook-registry") else (f"--manifest-path {dest.split('/')[0]}/Cargo.toml" if dest.startswith("signal-hook-") else "")
 extra = sys.argv[4] if len(sys.argv) > 4 else ("-- --test-threads=1" if "--test-threads=1" in cmds else "")
 demo_cmd = f"cargo test {pkg} --test {name} --offline {extra}"
 res["demo_cmd"] = demo_cmd
